@@ -197,19 +197,62 @@ def _consts_digest():
         return None
 
 
+def _up_to_date():
+    """(under the shared lock) True iff a build would change nothing: the constants reflected from the tree under test are
+    the ones in Gen/Consts.v, make has nothing to do, the driver was built from the current model"""
+    env = dict(os.environ)
+    env['PYTHONPATH'] = repo_path()
+    env['PYTHONHASHSEED'] = '0'
+    env['PYTHONDONTWRITEBYTECODE'] = '1'
+    tmp = os.path.join(VERIF, '.scratch', 'consts_%d.v' % os.getpid())
+    try:
+        rc, out = sh('%s %s %s' % (PY, os.path.join(VERIF, 'harness', 'gen_consts.py'), tmp), env=env, timeout=120)
+        if rc != 0:
+            return False
+        with open(tmp, 'rb') as f:
+            mine = hashlib.sha256(f.read()).hexdigest()
+    except OSError:
+        return False
+    finally:
+        try:
+            os.remove(tmp)
+        except OSError:
+            pass
+    if mine != _consts_digest():
+        return False
+    if not os.path.exists(os.path.join(COQ, 'Makefile')) or \
+       os.path.getmtime(os.path.join(COQ, 'Makefile')) < os.path.getmtime(os.path.join(COQ, '_CoqProject')):
+        return False
+    rc, _ = sh('make -q real-all', cwd=COQ, timeout=300)
+    if rc != 0:
+        return False
+    stamp_file = os.path.join(OCAML, '.stamp')
+    old = open(stamp_file).read() if os.path.exists(stamp_file) else ''
+    return old == model_stamp() and os.path.exists(DRIVER)
+
+
 def ensure_build(verbose=False, jobs=16):
     """Regenerate constants, run make, rebuild the driver.  Returns BuildStatus.
-    The build is made under an exclusive lock, which is then turned into a shared one held for the rest of the process:
-    a concurrent check of ANOTHER tree (VERIF_REPO, seeded-change trials) whose constants differ cannot replace Consts.v and
-    the driver under a check that is still using them."""
+    Locking: a check holds the build lock SHARED from here to the end of the process; it takes it EXCLUSIVE only while
+    something has to be rebuilt.  So concurrent checks of the same tree run side by side, and a concurrent check of
+    ANOTHER tree (VERIF_REPO, seeded-change trials) whose constants differ waits until the checks that use the current
+    Consts.v / driver are done, instead of replacing them under their feet."""
+    os.makedirs(os.path.join(VERIF, '.scratch'), exist_ok=True)
+    if not _HELD:
+        _HELD.append(open(os.path.join(VERIF, '.scratch', 'build.lock'), 'w'))
+    lock = _HELD[-1]
+    st = None
     for attempt in range(6):
-        st = _ensure_build(verbose, jobs)
+        fcntl.flock(lock, fcntl.LOCK_SH)
+        fresh = _up_to_date()
+        if not fresh:
+            fcntl.flock(lock, fcntl.LOCK_EX)
+        st = _ensure_build(verbose, jobs)        # nothing is written when everything is up to date
         mine = _consts_digest()
-        lock = _HELD[-1]
-        fcntl.flock(lock, fcntl.LOCK_SH)          # (not atomic: somebody may have rebuilt in between — verify)
-        if _consts_digest() == mine and st.consts_ok:
+        if fresh:
             return st
-        if not st.consts_ok:
+        fcntl.flock(lock, fcntl.LOCK_SH)          # (not atomic: somebody may have rebuilt in between — verify)
+        if _consts_digest() == mine or not st.consts_ok:
             return st
     return st
 
@@ -217,13 +260,6 @@ def ensure_build(verbose=False, jobs=16):
 def _ensure_build(verbose=False, jobs=16):
     st = BuildStatus()
     t0 = time.time()
-    os.makedirs(os.path.join(VERIF, '.scratch'), exist_ok=True)
-    if _HELD:
-        lock = _HELD[-1]
-    else:
-        lock = open(os.path.join(VERIF, '.scratch', 'build.lock'), 'w')
-        _HELD.append(lock)
-    fcntl.flock(lock, fcntl.LOCK_EX)
     try:
         env = dict(os.environ)
         env['PYTHONPATH'] = repo_path()
